@@ -1,1 +1,255 @@
-// placeholder
+//! Normalised text listing of a `Sem`, comparable with a normalisation of
+//! `javap -v -p -c -l` (tools/javap_norm.py). One fact per line.
+//!
+//! Strings are shown lossily: only ASCII letters, digits and a safe subset of
+//! punctuation survive (javap escapes differ), see [`norm`].
+
+use crate::jstr::JStr;
+use crate::sem::*;
+use std::fmt::Write;
+
+/// Lossy string normalisation shared with the javap normaliser.
+pub fn norm(s: &JStr) -> String {
+    let mut out = String::new();
+    match s.to_utf16() {
+        Some(u) => {
+            for c in u {
+                if c < 0x80 {
+                    let ch = c as u8 as char;
+                    if ch.is_ascii_alphanumeric() || "/;[()<>:.$_-+*=,!?@#%&|^~{} ".contains(ch) {
+                        out.push(ch);
+                    }
+                }
+            }
+        }
+        None => out.push_str("<malformed>"),
+    }
+    out
+}
+
+fn name(s: &JStr) -> String {
+    norm(s)
+}
+
+fn member(m: &MemberRef, field: bool) -> String {
+    let k = if field {
+        "Field"
+    } else if m.is_interface {
+        "InterfaceMethod"
+    } else {
+        "Method"
+    };
+    format!("{} {}.{}:{}", k, name(&m.owner), name(&m.name), name(&m.desc))
+}
+
+const REF_KINDS: [&str; 10] = [
+    "?",
+    "REF_getField",
+    "REF_getStatic",
+    "REF_putField",
+    "REF_putStatic",
+    "REF_invokeVirtual",
+    "REF_invokeStatic",
+    "REF_invokeSpecial",
+    "REF_newInvokeSpecial",
+    "REF_invokeInterface",
+];
+
+fn handle(h: &Handle) -> String {
+    format!("{} {}", REF_KINDS.get(h.kind as usize).unwrap_or(&"?"), member(&h.member, h.kind <= 4))
+}
+
+fn dynamic(d: &Dynamic) -> String {
+    let args: Vec<String> = d.args.iter().map(konst).collect();
+    format!("{}:{} bsm={} args=[{}]", name(&d.name), name(&d.desc), handle(&d.bsm), args.join(", "))
+}
+
+pub fn konst(c: &Const) -> String {
+    match c {
+        Const::Int(v) => format!("int {}", v),
+        Const::Float(v) => {
+            let f = f32::from_bits(*v);
+            if f.is_nan() {
+                "float NaN".into()
+            } else {
+                format!("float {:#010x}", v)
+            }
+        }
+        Const::Long(v) => format!("long {}", v),
+        Const::Double(v) => {
+            let f = f64::from_bits(*v);
+            if f.is_nan() {
+                "double NaN".into()
+            } else {
+                format!("double {:#018x}", v)
+            }
+        }
+        Const::String(s) => format!("String {}", norm(s)),
+        Const::Class(s) => format!("class {}", name(s)),
+        Const::MethodType(s) => format!("MethodType {}", name(s)),
+        Const::MethodHandle(h) => format!("MethodHandle {}", handle(h)),
+        Const::Dynamic(d) => format!("Dynamic {}", dynamic(d)),
+    }
+}
+
+fn insn(i: &Insn) -> String {
+    let m = i.mnemonic();
+    match i {
+        Insn::Simple(_) => m,
+        Insn::BiPush(v) => format!("{} {}", m, v),
+        Insn::SiPush(v) => format!("{} {}", m, v),
+        Insn::Ldc(c) => format!("{} {}", m, konst(c)),
+        Insn::Load(_, n) | Insn::Store(_, n) | Insn::Ret(n) => format!("{} {}", m, n),
+        Insn::Iinc(n, d) => format!("{} {} {}", m, n, d),
+        Insn::Branch(_, t) | Insn::Goto(t) | Insn::Jsr(t) => format!("{} @{}", m, t),
+        Insn::TableSwitch { default, low, targets } => {
+            let mut s = format!("{} low={} default=@{}", m, low, default);
+            for t in targets {
+                write!(s, " @{}", t).unwrap();
+            }
+            s
+        }
+        Insn::LookupSwitch { default, pairs } => {
+            let mut s = format!("{} default=@{}", m, default);
+            for (k, t) in pairs {
+                write!(s, " {}=@{}", k, t).unwrap();
+            }
+            s
+        }
+        Insn::Field(_, r) => format!("{} {}", m, member(r, true)),
+        Insn::Invoke(_, r) => format!("{} {}", m, member(r, false)),
+        Insn::InvokeDynamic(d) => format!("{} {}", m, dynamic(d)),
+        Insn::New(c) | Insn::ANewArray(c) | Insn::CheckCast(c) | Insn::InstanceOf(c) => format!("{} class {}", m, name(c)),
+        Insn::NewArray(t) => format!("{} {}", m, t.name()),
+        Insn::MultiANewArray(c, d) => format!("{} class {} {}", m, name(c), d),
+    }
+}
+
+fn vtype(v: &VType) -> String {
+    match v {
+        VType::Top => "top".into(),
+        VType::Integer => "int".into(),
+        VType::Float => "float".into(),
+        VType::Long => "long".into(),
+        VType::Double => "double".into(),
+        VType::Null => "null".into(),
+        VType::UninitializedThis => "this".into(),
+        VType::Object(c) => format!("class {}", name(c)),
+        VType::Uninitialized(i) => format!("uninit@{}", i),
+    }
+}
+
+fn vtypes(l: &[VType]) -> String {
+    let v: Vec<String> = l.iter().map(vtype).collect();
+    format!("[{}]", v.join(", "))
+}
+
+/// The listing. Sections: class header, fields, methods (code, exception
+/// table, line numbers, local variables, raw frames), inner classes.
+pub fn dump(s: &Sem) -> String {
+    let mut o = String::new();
+    writeln!(o, "class {} version {}.{} flags {:#06x}", name(&s.this_class), s.major, s.minor, s.access).unwrap();
+    if let Some(sc) = &s.super_class {
+        writeln!(o, "super {}", name(sc)).unwrap();
+    }
+    for i in &s.interfaces {
+        writeln!(o, "interface {}", name(i)).unwrap();
+    }
+    if let Some(sf) = &s.source_file {
+        writeln!(o, "source {}", norm(sf)).unwrap();
+    }
+    if let Some(sig) = &s.signature {
+        writeln!(o, "signature {}", name(sig)).unwrap();
+    }
+    for f in &s.fields {
+        writeln!(o, "field {} {} flags {:#06x}", name(&f.name), name(&f.desc), f.access).unwrap();
+        if let Some(cv) = &f.constant_value {
+            let c = match cv {
+                ConstValue::Int(v) => Const::Int(*v),
+                ConstValue::Float(v) => Const::Float(*v),
+                ConstValue::Long(v) => Const::Long(*v),
+                ConstValue::Double(v) => Const::Double(*v),
+                ConstValue::String(v) => Const::String(v.clone()),
+            };
+            writeln!(o, "  const {}", konst(&c)).unwrap();
+        }
+        if let Some(sig) = &f.signature {
+            writeln!(o, "  signature {}", name(sig)).unwrap();
+        }
+    }
+    for m in &s.methods {
+        writeln!(o, "method {} {} flags {:#06x}", name(&m.name), name(&m.desc), m.access).unwrap();
+        if let Some(sig) = &m.signature {
+            writeln!(o, "  signature {}", name(sig)).unwrap();
+        }
+        if let Some(e) = &m.exceptions {
+            let v: Vec<String> = e.iter().map(name).collect();
+            writeln!(o, "  throws {}", v.join(" ")).unwrap();
+        }
+        if let Some(c) = &m.code {
+            writeln!(o, "  code stack={} locals={}", c.max_stack, c.max_locals).unwrap();
+            for (i, ins) in c.insns.iter().enumerate() {
+                writeln!(o, "    {}: {}", i, insn(ins)).unwrap();
+            }
+            for e in &c.exceptions {
+                let t = e.catch_type.as_ref().map(|c| format!("class {}", name(c))).unwrap_or_else(|| "any".into());
+                writeln!(o, "  try {} {} {} {}", e.start, e.end, e.handler, t).unwrap();
+            }
+            for l in &c.line_numbers {
+                writeln!(o, "  line {} {}", l.line, l.at).unwrap();
+            }
+            for l in &c.local_vars {
+                writeln!(o, "  local {} {} {} {} {}", l.start, l.end, l.slot, name(&l.name), name(&l.desc)).unwrap();
+            }
+            for l in &c.local_var_types {
+                writeln!(o, "  localtype {} {} {} {} {}", l.start, l.end, l.slot, name(&l.name), name(&l.desc)).unwrap();
+            }
+            for (at, f) in &c.frames_raw.0 {
+                let d = match f {
+                    RawFrame::Same => "same".to_string(),
+                    RawFrame::SameLocals1(v) => format!("same_locals_1 stack {}", vtypes(std::slice::from_ref(v))),
+                    RawFrame::Chop(k) => format!("chop {}", k),
+                    RawFrame::Append(l) => format!("append locals {}", vtypes(l)),
+                    RawFrame::Full { locals, stack } => format!("full locals {} stack {}", vtypes(locals), vtypes(stack)),
+                };
+                writeln!(o, "  frame {} {}", at, d).unwrap();
+            }
+        }
+    }
+    if let Some(l) = &s.inner_classes {
+        for ic in l {
+            writeln!(
+                o,
+                "inner {} outer {} name {} flags {:#06x}",
+                name(&ic.inner),
+                ic.outer.as_ref().map(name).unwrap_or_else(|| "-".into()),
+                ic.inner_name.as_ref().map(name).unwrap_or_else(|| "-".into()),
+                ic.access
+            )
+            .unwrap();
+        }
+    }
+    if let Some(em) = &s.enclosing_method {
+        let m = em.method.as_ref().map(|(n, d)| format!("{}:{}", name(n), name(d))).unwrap_or_else(|| "-".into());
+        writeln!(o, "enclosing {} {}", name(&em.class), m).unwrap();
+    }
+    if let Some(h) = &s.nest_host {
+        writeln!(o, "nesthost {}", name(h)).unwrap();
+    }
+    if let Some(l) = &s.nest_members {
+        for c in l {
+            writeln!(o, "nestmember {}", name(c)).unwrap();
+        }
+    }
+    if let Some(l) = &s.permitted_subclasses {
+        for c in l {
+            writeln!(o, "permitted {}", name(c)).unwrap();
+        }
+    }
+    if let Some(l) = &s.record {
+        for rc in l {
+            writeln!(o, "component {} {}", name(&rc.name), name(&rc.desc)).unwrap();
+        }
+    }
+    o
+}
